@@ -56,6 +56,40 @@ def setup_env():
         sys.path.insert(0, src)
 
 
+# Optional measurement of the tie: which source lines of /repo's e3fp the check executes (correspondence + direct property
+# evaluation, in this process).  Enabled by VERIF_COVERAGE=1 and by default in the thorough tier; started at import of this
+# module, i.e. before any props module imports e3fp, so that definition lines count too.
+_COV = None
+if os.environ.get("VERIF_COVERAGE", "") == "1" or (os.environ.get("VERIF_COVERAGE", "") != "0" and "thorough" in sys.argv):
+    try:
+        import coverage as _coverage
+        _COV = _coverage.Coverage(data_file=None, source=[os.path.join(REPO, "src", "e3fp")], config_file=False)
+        _COV.start()
+    except Exception:  # noqa: BLE001 - the measurement is optional
+        _COV = None
+
+
+def source_coverage(files):
+    """Stop the measurement; per anchored file: statements, executed, and the missing line ranges."""
+    global _COV
+    if _COV is None:
+        return None
+    try:
+        _COV.stop()
+        out = {}
+        for rel in files:
+            path = os.path.join(REPO, rel)
+            if not os.path.exists(path) or not path.endswith(".py"):
+                continue
+            _f, stmts, _excl, missing, missing_fmt = _COV.analysis2(path)
+            out[rel] = {"statements": len(stmts), "executed": len(stmts) - len(missing), "missing": missing_fmt}
+        return out
+    except Exception as e:  # noqa: BLE001
+        return {"error": repr(e)}
+    finally:
+        _COV = None
+
+
 class Broken(Exception):
     """A proof obligation or the tie to the source no longer checks."""
 
@@ -305,6 +339,18 @@ def canon(x):
 def short(x, n=600):
     s = canon(x)
     return s if len(s) <= n else s[:n] + "...(%d chars)" % len(s)
+
+
+def anchored_files(pid):
+    """the source files the property is anchored in (properties.jsonl)"""
+    try:
+        for line in open(os.path.join(VERIF, "properties.jsonl")):
+            p = json.loads(line)
+            if p.get("id") == pid:
+                return list(p.get("anchors", {}).get("files", []))
+    except Exception:  # noqa: BLE001
+        pass
+    return []
 
 
 def finding_key(prop_id, failure):
@@ -573,6 +619,7 @@ def run_check(cls, argv=None):
             "search_cases_after_break": searched,
             "distribution": chk.dist,
             "broken": [list(b) for b in broken[:10]],
+            "source_lines_executed": source_coverage(anchored_files(pid)) or "not measured (set VERIF_COVERAGE=1; on in the thorough tier)",
         },
         "assumptions": chk.assumptions,
         "wall_s": round(wall, 2),
